@@ -294,6 +294,7 @@ pub fn concretize(kind: Kind, h: &RawHistory, timeout_ns: u64) -> Vec<Op> {
     let subset = subset_of(h.mask);
     let mut out = Vec::with_capacity(h.raw.len() + 4);
     let mut recent: Vec<u8> = Vec::with_capacity(8);
+    let mut total_advance: u64 = 0;
     if kind != Kind::Cc14 {
         for (i, &ch) in subset.iter().enumerate() {
             if h.preselect & (1 << ch) != 0 {
@@ -389,8 +390,11 @@ pub fn concretize(kind: Kind, h: &RawHistory, timeout_ns: u64) -> Vec<Op> {
                     9 => if free % 8 == 0 { TWO_POW_32_S - 1 - (free >> 8) % 3 } else { 4_294_967_296_000_000 + free % 3 },
                     _ => if free % 8 == 0 { TWO_POW_32_S.saturating_add(t) } else { 4_294_967_296 + free % 3 },
                 };
-                // keep the clock far from u64 saturation: a single step is at most ~2^62
-                Op::Advance(d.min(1 << 62))
+                // keep the harness clock far from u64 saturation (a saturated mock clock stands still,
+                // which no real clock does): once 2^62 ns have been spent, only small steps follow
+                let d = if total_advance.saturating_add(d) > (1u64 << 62) { d % 1_000_000_007 } else { d };
+                total_advance = total_advance.saturating_add(d);
+                Op::Advance(d)
             }
         };
         out.push(op);
